@@ -105,10 +105,8 @@ func newStoreWorld(t *testing.T, sim *verifsim.Sim, prop string) *storeWorld {
 	http.DefaultTransport = w.reg
 	w.ctl = &vfs.Control{Roots: []string{w.dir}, CrashAt: -1, LogCap: 300}
 	vfs.Ctl = w.ctl
-	w.ginErr = &bytes.Buffer{}
 	gin.SetMode(gin.TestMode)
 	gin.DefaultWriter = io.Discard
-	gin.DefaultErrorWriter = w.ginErr
 	w.freshProcess()
 	return w
 }
@@ -118,6 +116,11 @@ func (w *storeWorld) freshProcess() {
 	blobDownloadManager = sync.Map{}
 	blobUploadManager = sync.Map{}
 	intermediateBlobs = make(map[string]string)
+	// gin's recovery middleware captures DefaultErrorWriter when the router is
+	// built: one buffer per process incarnation, so that goroutines of a dead
+	// incarnation unwinding through gin never show up in the live one
+	w.ginErr = &bytes.Buffer{}
+	gin.DefaultErrorWriter = w.ginErr
 	s := &Server{}
 	h, err := s.GenerateRoutes(nil)
 	if err != nil {
@@ -377,7 +380,12 @@ func manifestKey(m *Manifest) string {
 	var sb strings.Builder
 	fmt.Fprintf(&sb, "v%d|%s|cfg=%s/%s/%d", m.SchemaVersion, m.MediaType, m.Config.MediaType, m.Config.Digest, m.Config.Size)
 	for _, l := range m.Layers {
-		fmt.Fprintf(&sb, "|%s/%s/%d/%s", l.MediaType, l.Digest, l.Size, l.From)
+		from := l.From
+		if filepath.IsAbs(from) {
+			// an absolute path below this run's models directory
+			from = "$MODELS/blobs/" + filepath.Base(from)
+		}
+		fmt.Fprintf(&sb, "|%s/%s/%d/%s", l.MediaType, l.Digest, l.Size, from)
 	}
 	return sb.String()
 }
